@@ -71,3 +71,11 @@ Proof.
     eapply (IndexProofsBase.reach_step tiny); [|exact C01]. apply (IndexProofsBase.reach_refl tiny). }
   apply Hiff in HR. vm_compute in HR. exact HR.
 Qed.
+
+(* remove_file of the last file of the model: the root loses every sub-element, both maps are empty *)
+Definition lastfile_demo : list op := demo ++ [OpRemoveFile 0 0].
+Example lastfile_demo_summary :
+  (TreeFacts (wof lastfile_demo) /\ Inv04 tiny tiny_check_fn (wof lastfile_demo) /\ Inv05 tiny (wof lastfile_demo)) /\
+  idents_of (wof lastfile_demo) 0 = [] /\ origins_list (wof lastfile_demo) 0 = [] /\
+  option_map n_content (w_nodes (wof lastfile_demo) 0) = Some [].
+Proof. split; [apply script_invm; vm_compute; reflexivity|]. vm_compute. repeat split; reflexivity. Qed.
